@@ -389,3 +389,47 @@ def stream_flow_projection(conn):
             conn._inbound_flow_control_window_manager._bytes_processed,
             bytes(conn.incoming_buffer.data), len(conn.incoming_buffer._headers_buffer),
             bytes(conn._data_to_send))
+
+
+def quiescent_projection(conn):
+    """What a call that raises must leave alone (read-only look at internals): connection state, both stream-id
+    watermarks, every window, the state and message flags of every stream that is not closed, the pending and current
+    values of both settings objects, the encoder's dynamic table, unparsed input and uncollected output.  Closed streams
+    and the closed-stream memory are left out: a refused send_headers at the concurrency limit legitimately tidies
+    them."""
+    streams = []
+    for sid in sorted(conn.streams):
+        s = conn.streams[sid]
+        sm = s.state_machine
+        if sm.state.name == "CLOSED":
+            continue
+        streams.append((sid, sm.state.name, sm.client, sm.headers_sent, sm.trailers_sent, sm.headers_received,
+                        sm.trailers_received, s.outbound_flow_control_window, s.inbound_flow_control_window,
+                        s._inbound_window_manager.max_window_size, s._inbound_window_manager._bytes_processed,
+                        s.max_outbound_frame_size, s.max_inbound_frame_size))
+
+    def sett(x):
+        return tuple(sorted((int(k), tuple(v)) for k, v in x._settings.items()))
+    cstate = conn.state_machine.state.name
+    if cstate == "IDLE":
+        # a refused first call may already have taken the connection from IDLE to the OPEN state of ITS OWN role: not
+        # observable (every input is treated alike in the two states for that role), so the two are one state here
+        cstate = "CLIENT_OPEN" if conn.config.client_side else "SERVER_OPEN"
+    return (cstate, tuple(streams), conn.highest_inbound_stream_id, conn.highest_outbound_stream_id,
+            conn.outbound_flow_control_window, conn.inbound_flow_control_window,
+            conn._inbound_flow_control_window_manager.max_window_size,
+            conn._inbound_flow_control_window_manager._bytes_processed,
+            conn.max_outbound_frame_size, conn.max_inbound_frame_size,
+            sett(conn.local_settings), sett(conn.remote_settings),
+            tuple(tuple(map(bytes, e)) for e in conn.encoder.header_table.dynamic_entries), conn.encoder.header_table_size,
+            bytes(conn.incoming_buffer.data), len(conn.incoming_buffer._headers_buffer), bytes(conn._data_to_send))
+
+
+PROJECTION_FIELDS = ("connection state", "live streams", "highest inbound id", "highest outbound id", "outbound connection window",
+                     "inbound connection window", "inbound window maximum", "inbound bytes processed", "max outbound frame size",
+                     "max inbound frame size", "local settings (current + pending)", "remote settings", "encoder table",
+                     "encoder table size", "unparsed input", "header-block backlog", "uncollected output")
+
+
+def projection_diff(a, b):
+    return [PROJECTION_FIELDS[i] for i, (x, y) in enumerate(zip(a, b)) if x != y]
